@@ -3,6 +3,7 @@
    to the register machine of RelEdit.v, and the statement of the whole property.
    Definitions only. *)
 From V.model Require Import Base RelLex RelParse RelEdit.
+From V.model Require RelAcc.
 
 (* ------------------------------------------------------------------ the list model *)
 (* a field = entries of alternatives; an alternative is a [relrec] (RelEdit.v) *)
@@ -55,6 +56,19 @@ Definition astep (f : lfield) (o : aop) : lfield :=
   | ASetArchs i j a => l_on_relation i j (rr_set_archs a) f
   | AAddProfile i j g => l_on_relation i j (rr_add_profile g) f
   end.
+
+(* what the accessors return for a field whose version texts are as written in [f]: every version
+   goes through debversion (RelEdit.structure_d = field_display of RelEdit.structure, proofs/RelEditVersionP.v) *)
+Definition rr_display (r : relrec) : res relrec :=
+  match rr_ver r with
+  | Some (vc, v) =>
+      match RelAcc.debversion_roundtrip v with
+      | Ok v' => Ok (mk_relrec (rr_name r) (rr_qual r) (Some (vc, v')) (rr_archs r) (rr_profs r))
+      | _ => Panic 12
+      end
+  | None => Ok r
+  end.
+Definition field_display (f : lfield) : res lfield := mapM (mapM rr_display) f.
 
 (* the positions an operation names exist (insert beyond the end appends) *)
 Definition rel_in_range (f : lfield) (i j : nat) : bool :=
